@@ -270,6 +270,14 @@ func c06Gen(tier string, rng *rand.Rand) []mCase {
 			}
 			c := mk("boundary", fmt.Sprintf("first %d fields", k), b.bytes[:end])
 			c.expect = "any"
+			// cut in front of a member the type requires (whatever default it declares): an error
+			for _, later := range b.spans[k:] {
+				if _, req, ok := fieldTypeByTag(b.e.typ, later.Tag); ok && req {
+					c.expect, c.sigHint = "err", "truncated-before-required"
+					c.g.Note += fmt.Sprintf(" (required member tag %d cut off)", later.Tag)
+					break
+				}
+			}
 			boundIdx[k] = len(cs)
 			cs = append(cs, c)
 		}
@@ -569,7 +577,7 @@ func c04Gen(tier string, rng *rand.Rand) []mCase {
 		// absent members
 		for _, s := range b.spans {
 			ft, req, ok := fieldTypeByTag(b.e.typ, s.Tag)
-			if !ok || (ft.Kind() != reflect.Struct && rng.Intn(2) == 0) { // struct-typed members: always (their reset is a path of its own)
+			if !ok || (!req && ft.Kind() != reflect.Struct && rng.Intn(2) == 0) { // required members and struct-typed members: always
 				continue
 			}
 			nb := append(append([]byte(nil), b.bytes[:s.Start]...), b.bytes[s.End:]...)
